@@ -232,6 +232,16 @@ def install_dom(it: Interp):
                 return PyCallable(mk)
             if attr == "QName":
                 return PyCallable(lambda i, a, k: _qname(a[0]))
+            if attr == "XMLParser":
+                return PyCallable(lambda i, a, k: ParserTok(dict(k), a))
+            if attr in ("fromstring", "XML", "parse", "iterparse", "HTML"):
+                def parse(i, a, k, api=attr):
+                    parser = k.get("parser", a[1] if len(a) > 1 else None)
+                    i.__dict__.setdefault("xml_parses", []).append((api, parser if isinstance(parser, ParserTok) else None))
+                    return El("svg", {}, name="parsed-root")
+                return PyCallable(parse)
+            if attr == "tostring":
+                return PyCallable(lambda i, a, k: "<serialised/>")
             raise Undecided(f"etree.{attr} not modelled")
 
     mod = EtreeMod()
@@ -243,6 +253,19 @@ def install_dom(it: Interp):
         return (q.namespace, q.localname)
 
     it.hooks[("svg_meta", "splitns")] = splitns
+
+
+class ParserTok(Ext):
+    """etree.XMLParser(**options) as observed."""
+
+    def __init__(self, options, args=()):
+        self.options, self.args = options, tuple(args)
+
+    def sym_copy(self):
+        return self
+
+    def sym_truth(self, it):
+        return True
 
 
 class _QN:
